@@ -117,6 +117,12 @@ func init() {
 			BFS(c, &LightFamily{Nmax: pick(c, 4, 5), Prop: "C07", RemMode: "none", Base: b, Collect: "C01"}, 0)
 			BFS(c, &PartialFamily{Nmax: pick(c, 3, 4), TR: 63, UndoBud: 1, SetLimit: 2, Prop: "C09", Base: b, Collect: "C01"}, 0)
 		}
+		// forests that went through one serialize/restore and then evolved further
+		nrt := pick(c, 5, 6)
+		c.Cov.Bound["restored_forests"] = fmt.Sprintf("Nmax=%d, one serialize/restore transition; Pollard, MapPollard full / partial", nrt)
+		if !c.Expired() {
+			BFS(c, &HistFamily{Nmax: nrt, Insts: stdInsts([]uint8{0, 63}, []string{"all", "even"})[1:], Or: HistOracle{Roots: true, Prop: "C01", OnlyAfter: "roundtrip"}, RTBud: 1}, 0)
+		}
 		queriedFamily(c, HistOracle{Roots: true, Prop: "C01"})
 		// every block handed over with its targets (and their hashes) in descending order
 		nrev := pick(c, 6, 7)
